@@ -46,6 +46,18 @@ def bad_operator(inputs, value):
 def run(ctx: Ctx):
   for r in (r1, r2, r3, r4):
     ctx.guard(r)
+  from mlmverif.props import c18, c19
+  ctx.include('R-C08-5', '"leaves the caller\'s input objects untouched": the'
+              ' copy-on-write tree update the operators write through (R-C18-1'
+              ' fresh-copy discipline, R-C18-2 routing)', _c18_shared, min_instances=8)
+  ctx.include('R-C08-6', 'operators re-batch inputs/outputs with their own'
+              ' batch size and column count (R-C19-4 wiring)', c19.r4, min_instances=4)
+
+
+def _c18_shared(sub):
+  from mlmverif.props import c18
+  c18.r1(sub)
+  c18.r2(sub)
 
 
 def _view_vars(fn: ast.AST) -> set[str]:
